@@ -24,6 +24,7 @@ import (
 
 	"pgregory.net/rapid"
 
+	"mellium.im/xmpp/internal/marshal"
 	"mellium.im/xmpp/jid"
 	"mellium.im/xmpp/stanza"
 	"mellium.im/xmpp/stream"
@@ -51,6 +52,7 @@ const (
 	famStanza      = "stanza-header"
 	famStanzaError = "stanza-error"
 	famStreamError = "stream-error"
+	famMarshalPkg  = "marshal-helper"
 )
 
 func recipeWrap(s stz, p *node) recipe {
@@ -110,6 +112,28 @@ func recipeStreamError(e stream.Error, p *node) recipe {
 	}
 }
 
+// recipeMarshalPkg: the internal helper behind Session.Encode* turning a plain
+// value into tokens (internal/marshal.TokenReader); the reader may be consumed
+// after further values have been handed to the helper.
+func recipeMarshalPkg(s stz) recipe {
+	return recipe{
+		desc:     fmt.Sprintf("marshal.TokenReader(%s)", s),
+		families: []string{famMarshalPkg},
+		mk: func() xml.TokenReader {
+			r, err := marshal.TokenReader(s.value())
+			if err != nil {
+				return errReader{err}
+			}
+			return r
+		},
+		std: func() ([]byte, error) { return xml.Marshal(s.value()) },
+	}
+}
+
+type errReader struct{ err error }
+
+func (e errReader) Token() (xml.Token, error) { return nil, e.err }
+
 // genRecipe draws a recipe; family "" means any.
 func genRecipe(t *rapid.T, family string) recipe {
 	var k int
@@ -120,8 +144,10 @@ func genRecipe(t *rapid.T, family string) recipe {
 		k = rapid.IntRange(2, 4).Draw(t, "recipe-kind")
 	case famStreamError:
 		k = 5
+	case famMarshalPkg:
+		k = 6
 	default:
-		k = rapid.IntRange(0, 5).Draw(t, "recipe-kind")
+		k = rapid.IntRange(0, 6).Draw(t, "recipe-kind")
 	}
 	switch k {
 	case 0:
@@ -137,6 +163,8 @@ func genRecipe(t *rapid.T, family string) recipe {
 		return recipeStanzaError(genStanzaError(t, false), nil, false)
 	case 4:
 		return recipeStanzaError(genStanzaError(t, false), genMaybePayload(t, "p"), true)
+	case 6:
+		return recipeMarshalPkg(genStz(t, false))
 	}
 	return recipeStreamError(genStreamError(t, false), genMaybePayload(t, "p"))
 }
@@ -150,7 +178,19 @@ type noise struct {
 func discardEncoder() *xml.Encoder { return xml.NewEncoder(io.Discard) }
 
 func genNoise(t *rapid.T, recipes []recipe) noise {
-	switch rapid.IntRange(0, 6).Draw(t, "noise-kind") {
+	switch rapid.IntRange(0, 7).Draw(t, "noise-kind") {
+	case 7:
+		s := genStz(t, false)
+		return noise{"marshal.TokenReader(" + s.String() + ") (never read) + marshal.EncodeXML", func() error {
+			if _, err := marshal.TokenReader(s.value()); err != nil {
+				return err
+			}
+			e := discardEncoder()
+			if err := marshal.EncodeXML(e, s.value()); err != nil {
+				return err
+			}
+			return e.Flush()
+		}}
 	case 0:
 		se := genStanzaError(t, false)
 		return noise{"xml.Marshal(" + showStanzaError(se) + ")", func() error { _, err := xml.Marshal(se); return err }}
@@ -335,7 +375,7 @@ func TestC13Independence(t *testing.T) {
 		// Half of the batches stay within one family (shared code), the others mix.
 		family := ""
 		if rapid.Bool().Draw(rt, "one-family") {
-			family = rapid.SampledFrom([]string{famStanza, famStanzaError, famStreamError}).Draw(rt, "family")
+			family = rapid.SampledFrom([]string{famStanza, famStanzaError, famStreamError, famMarshalPkg}).Draw(rt, "family")
 		}
 		for i := 0; i < n; i++ {
 			recipes = append(recipes, genRecipe(rt, family))
@@ -357,7 +397,7 @@ func TestC13Independence(t *testing.T) {
 
 		cl := []string{"independence", fmt.Sprintf("independence-readers-%d", n)}
 		shared := false
-		for _, f := range []string{famStanza, famStanzaError, famStreamError} {
+		for _, f := range []string{famStanza, famStanzaError, famStreamError, famMarshalPkg} {
 			c := 0
 			for _, r := range recipes {
 				if r.in(f) {
